@@ -26,4 +26,16 @@ PROPS = {
                    evals=dict(M="mc_mismatches", V="c01_violations", NT="c01_nontrivial"),
                    counts=("NT",))],
     ),
+    "C02": dict(
+        level="proof",
+        rule="same component as C01; the planted stream builds the message from the instantiated pattern plus extra "
+             "properties and elements; non-trivial = the case meets C02's side conditions (decided in Coq by c02_pre and "
+             "embeds) with a non-empty planted assignment; harness counts distinct cases with a non-empty planted assignment.",
+        trusted=MATCH_TRUSTED,
+        assumptions=["arrays are sets; repeated variables take scalar values (C02's quantifier)"],
+        runs=[dict(component="match", require="Corr.MatchCorr", require_vo="Corr/MatchCorr.vo",
+                   n=dict(quick=900, thorough=24000), shard=700, opts=dict(mode="c02"),
+                   evals=dict(M="mc_mismatches", V="c02_violations", NT="c02_nontrivial", NL="c02_linear_count"),
+                   counts=("NT", "NL"))],
+    ),
 }
